@@ -53,24 +53,28 @@ fn c04_ica_same_verdict_f64() {
     let p = mk::<f64>(nc, g, a, it, tol, rs);
     let before = p.clone();
     let tol_ok = tol >= 0.0;
+    let alpha_ok = g != 0 || (a >= 1.0 && a <= 2.0);                // Logcosh alpha "between 1 and 2 inclusive"
     let r = p.check_ref();
-    assert!(r.is_ok() == tol_ok);                                  // the documented tolerance range
+    assert!(r.is_ok() == (tol_ok && alpha_ok));                    // the documented ranges
     match &r {
         Ok(c) => assert!(**c == before.0 && *c.ncomponents() == nc && *c.gfunc() == gf(g, a) && c.max_iter() == it
                          && c.tol() == tol && *c.random_state() == rs),
         Err(FastIcaError::InvalidTolerance(x)) => assert!(!tol_ok && *x == tol as f32),
+        Err(FastIcaError::InvalidValue(_)) => assert!(!alpha_ok),     // the error names an offending field
         Err(_) => assert!(false),
     }
     assert!(p == before);                                          // check_ref leaves self unchanged
     let byval = p.clone().check();
-    assert!(byval.is_ok() == tol_ok);                              // same verdict by value
+    assert!(byval.is_ok() == r.is_ok());                           // same verdict by value
     match &byval {
         Ok(c) => assert!(*c == before.0),                          // payload is the inner value
-        Err(FastIcaError::InvalidTolerance(x)) => assert!(!tol_ok && *x == tol as f32),   // same error
+        Err(FastIcaError::InvalidTolerance(x)) => assert!(!tol_ok && *x == tol as f32 && matches!(r, Err(FastIcaError::InvalidTolerance(_)))),   // same error
+        Err(FastIcaError::InvalidValue(_)) => assert!(!alpha_ok && matches!(r, Err(FastIcaError::InvalidValue(_)))),
         Err(_) => assert!(false),
     }
-    kani::cover!(tol_ok);
+    kani::cover!(tol_ok && alpha_ok);
     kani::cover!(!tol_ok);
+    kani::cover!(tol_ok && !alpha_ok);
     kani::cover!(tol == 0.0);
     kani::cover!(tol_ok && nc.is_some() && rs.is_none() && g == 2);
 }
@@ -98,24 +102,28 @@ fn c04_ica_same_verdict_f32() {
     let p = mk::<f32>(nc, g, a, it, tol, rs);
     let before = p.clone();
     let tol_ok = tol >= 0.0;
+    let alpha_ok = g != 0 || (a >= 1.0 && a <= 2.0);                // Logcosh alpha "between 1 and 2 inclusive"
     let r = p.check_ref();
-    assert!(r.is_ok() == tol_ok);                                  // the documented tolerance range
+    assert!(r.is_ok() == (tol_ok && alpha_ok));                    // the documented ranges
     match &r {
         Ok(c) => assert!(**c == before.0 && *c.ncomponents() == nc && *c.gfunc() == gf(g, a) && c.max_iter() == it
                          && c.tol() == tol && *c.random_state() == rs),
         Err(FastIcaError::InvalidTolerance(x)) => assert!(!tol_ok && *x == tol as f32),
+        Err(FastIcaError::InvalidValue(_)) => assert!(!alpha_ok),     // the error names an offending field
         Err(_) => assert!(false),
     }
     assert!(p == before);                                          // check_ref leaves self unchanged
     let byval = p.clone().check();
-    assert!(byval.is_ok() == tol_ok);                              // same verdict by value
+    assert!(byval.is_ok() == r.is_ok());                           // same verdict by value
     match &byval {
         Ok(c) => assert!(*c == before.0),                          // payload is the inner value
-        Err(FastIcaError::InvalidTolerance(x)) => assert!(!tol_ok && *x == tol as f32),   // same error
+        Err(FastIcaError::InvalidTolerance(x)) => assert!(!tol_ok && *x == tol as f32 && matches!(r, Err(FastIcaError::InvalidTolerance(_)))),   // same error
+        Err(FastIcaError::InvalidValue(_)) => assert!(!alpha_ok && matches!(r, Err(FastIcaError::InvalidValue(_)))),
         Err(_) => assert!(false),
     }
-    kani::cover!(tol_ok);
+    kani::cover!(tol_ok && alpha_ok);
     kani::cover!(!tol_ok);
+    kani::cover!(tol_ok && !alpha_ok);
     kani::cover!(tol == 0.0);
     kani::cover!(tol_ok && nc.is_some() && rs.is_none() && g == 2);
 }
